@@ -197,7 +197,8 @@ impl RustCodeGenerator {
                         EncodingOrdering::Sort => "set",
                     },
                     *tag,
-                    extension_after.map(|index| fields[index].name().to_string()),
+                    // must match the (keyword-escaped) name of the field
+                    extension_after.map(|index| Self::rust_field_name(fields[index].name(), true)),
                     &[],
                 ));
                 Self::add_struct(
@@ -861,6 +862,10 @@ impl RustCodeGenerator {
             } else {
                 out.push(c);
             }
+        }
+        // the only keyword a variant can collide with
+        if out == "Self" {
+            out.push('_');
         }
         out
     }
